@@ -24,7 +24,7 @@ from functools import reduce
 import numpy as np
 
 # This Package modules
-from PseudoNetCDF.camxfiles.timetuple import timeadd, timerange
+from PseudoNetCDF.camxfiles.timetuple import timeadd, timerange, rollyear
 from PseudoNetCDF.camxfiles.FortranFileUtil import writeline, Asc2Int
 from PseudoNetCDF._getwriter import registerwriter
 
@@ -170,6 +170,7 @@ def ncf2uamiv(ncffile, outpath):
         time_e = time_s.copy() + tincr
         date_e += (time_e // 24).astype('i')
         time_e -= (time_e // 24) * 24
+        date_e = rollyear(date_e)
     time_hdr['ibdate'] = date_s
     time_hdr['btime'] = time_s
     time_hdr['iedate'] = date_e
